@@ -42,8 +42,9 @@ for d in sorted(glob.glob(os.path.join(V, "seeded", "*", "meta.json"))):
     desc = ""
     if os.path.exists(rd):
         txt = open(rd).read()
-        lines = [l.strip() for l in txt.split("\n") if l.strip() and not l.startswith("#")]
-        desc = (lines[0] if lines else "")[:220].replace("|", "\\|")
+        heads = [l.strip().lstrip("#").strip() for l in txt.split("\n") if l.startswith("# ")]
+        lines = [l.strip() for l in txt.split("\n") if l.strip() and not l.startswith("#") and not l.startswith("```")]
+        desc = (heads[0] if heads and len(heads[0]) > 25 else (lines[0] if lines else ""))[:220].replace("|", "\\|")
     c = m["confirmed"]
     conf = "%s / %s / %s" % ("ok" if c["builds"] else "NO", "ok" if c["existing_tests_pass"] else "NO", "ok" if (c["demo_passes_without"] and c["demo_fails_with"]) else "NO")
     res, other = [], []
